@@ -38,17 +38,21 @@ PROPS = {
              'result denotes QEx/QFa of the operand for an arbitrary assignment, quantified set, order and WF state, memo validity '
              'included; the quantifier aliases of apply are proved to delegate with the right roles (variables = support of first operand, '
              'body = second). That QEx/QFa are the OR/AND over the quantified variables and independent of them is lemma L-QUANT (Lean). '
-             'quantify/exist/forall wrappers, name->level translation and sorted() are assumed and bounded-checked (all functions of 3 '
+             'The entry points quantify (body), forall and exist are proved on top of it (Q = levels of the named variables). The '
+             'name->level translation _map_to_level, support and sorted() are assumed contracts, bounded-checked (all functions of 3 '
              'variables x all subsets x both quantifiers x orders).',
-             bounded=['vlib.rtc.c03'], tb=['BDD._map_to_level, BDD.support, sorted(): assumed contracts (bounded-checked)',
-                                         'BDD.quantify body / forall / exist wrappers: bounded only'], design_ref='DESIGN.md 7/C03'),
+             bounded=['vlib.rtc.c03'], tb=['BDD._map_to_level, BDD.support, sorted(): assumed contracts (bounded-checked)'],
+             design_ref='DESIGN.md 7/C03'),
     'C04': P('proof',
              'The three substitution recursions and renaming are proved: _cofactor (A2 = A overridden by the constants), _compose '
              '(A2/A3 = A with the level set/cleared, result = ite of the replacement), _vector_compose (A2[l] = value of the replacement '
              'under the ORIGINAL assignment: simultaneity), _copy_bdd with old_bdd is bdd + rename (A2 = A after the name map, any map). '
-             'Operand unchanged = frame Ext. The dispatch in BDD.let / compose / cofactor entry points is bounded-checked.',
-             bounded=['vlib.rtc.c04'], tb=['BDD.let, BDD.cofactor, BDD.compose entry points (isinstance dispatch, comprehension): bounded only',
-                                         'comprehension idiom {level_of(x): ... for x in names} modelled through the W8 bijection'],
+             'Operand unchanged = frame Ext. The entry points are proved too: cofactor (body), compose (body; two contracts: exactly one '
+             'variable / several at once), rename (method) and BDD.let in its three dispatch variants (dict of constants, of references, '
+             'of names; empty dict returns u).',
+             bounded=['vlib.rtc.c04'], tb=['BDD._map_to_level, sorted(): assumed contracts (bounded-checked)',
+                                         'comprehension idiom {level_of(x): ... for x in names} modelled through the W8 bijection',
+                                         'dd.autoref.BDD.let (Function unwrapping): bounded only'],
              design_ref='DESIGN.md 7/C04'),
     'C05': P('other',
              'The parse is performed by PLY\'s generated LALR automaton from grammar docstrings and a precedence table; no contract can be '
